@@ -279,7 +279,138 @@ def check_C06(tier, rng, jobs):
             "coverage_extra": {"exhaustive_part_impl": "all cut lengths of the sampled buckets; thorough: all single-bit flips"}}
 
 
-CHECKS = {"C19": check_C19, "C06": check_C06, "C01": check_C01, "C16": check_C16, "C18": check_C18, "C02": check_C02, "C05": check_C05, "C08": check_C08, "C09": check_C09, "C10": check_C10,
+def _mask_times(x, lo, hi):
+    """default timestamps differ between runs: mask clock values of this run"""
+    if isinstance(x, dict):
+        return {k: (("NOW" if (k == "time" and isinstance(v, str) and v.isdigit() and lo <= int(v) <= hi) else
+                     _mask_times(v, lo, hi))) for k, v in x.items()}
+    if isinstance(x, list):
+        return [_mask_times(v, lo, hi) for v in x]
+    return x
+
+
+def check_C12(tier, rng, jobs):
+    q = tier == QUICK
+    base = []
+    one = ["S"]
+    for _ in range(3 if q else 30):
+        base.append(G.history_program(rng, 25 if q else 80, lanes=one, nkeys=4, ndata=3, removal_weight=0.25,
+                                      bulk=True, full_opts=True, algos=("sha256", "sha1")))
+        base.append(G.roundtrip_program(rng, 8 if q else 25, lanes=one))
+        base.append(G.commit_program(rng, 8 if q else 25, lanes=one))
+        base.append(G.retrieve_program(rng, 6 if q else 20, lanes=one))
+        base.append(G.link_program(rng, 4 if q else 12, lanes=one))
+    base.append(G.index_damage_program(rng, lanes=one, nrec=2, flips=40, cuts=60))
+    variants = {
+        "S": lambda i, st: "S", "Aa": lambda i, st: "Aa", "Ta": lambda i, st: "Ta",
+        "mix": lambda i, st: ["S", "Aa", "Ta", "As", "Ts"][i % 5],
+    }
+    names = list(variants)
+    batches = []
+    for p in base:
+        for v in names:
+            batches.append([G.with_lanes(p, variants[v])])
+    t_lo = int(time.time() * 1000) - 60000
+    agg = RN.run_batches("C12", batches, opts={"keep_results": True}, jobs=jobs)
+    t_hi = int(time.time() * 1000) + 60000
+    # product comparison: per-step results and final projections of the variants must be equal
+    res, fin = agg.pop("results"), agg.pop("finals")
+    ncmp = 0
+    for pi in range(len(base)):
+        group = [(names[vi], _mask_times(res[pi * len(names) + vi][0], t_lo, t_hi),
+                  _mask_times(fin[pi * len(names) + vi][0], t_lo, t_hi)) for vi in range(len(names))]
+        ref = group[0]
+        for (vn, r, f) in group[1:]:
+            for si, (a, b) in enumerate(zip(ref[1], r)):
+                ncmp += 1
+                if a != b:
+                    agg["divs"].append({"what": "flavour", "line": si, "props": ["C12"],
+                                        "event": {"ev": "call", "op": base[pi]["steps"][si]},
+                                        "exp": a, "obs": b, "variant": vn,
+                                        "trace": None, "programs": _save_prog("C12", pi, base[pi], vn, variants)})
+                    break
+            if ref[2] != f:
+                agg["divs"].append({"what": "flavour_final", "props": ["C12"], "variant": vn,
+                                    "exp": None, "obs": None, "event": None,
+                                    "trace": None, "programs": _save_prog("C12", pi, base[pi], vn, variants)})
+    return {"mc": [], "agg": agg, "samples": [base[0]["steps"][:8]],
+            "rule": "every program (histories with all option combinations, round trips, commits with declared "
+                    "size/integrity, retrievals of damaged content, link_to, index damage) is executed in three pure "
+                    "flavours {sync build, async-std async API, tokio async API} and in a mixed form on one "
+                    "directory; each execution is validated by TLC against the same deterministic contract, and "
+                    "per-step results and final projections are compared across the flavours (default timestamps masked)",
+            "coverage_extra": {"cross_flavour_step_comparisons": ncmp},
+            "needs_mc_from": "C05"}
+
+
+def _save_prog(pid, pi, prog, vn, variants):
+    d = os.path.join(WORK, pid)
+    os.makedirs(d, exist_ok=True)
+    path = os.path.join(d, "diverging_%d_%s.json" % (pi, vn))
+    with open(path, "w") as f:
+        json.dump([G.with_lanes(prog, variants["S"]), G.with_lanes(prog, variants[vn])], f)
+    return path
+
+
+def check_C17(tier, rng, jobs):
+    q = tier == QUICK
+    progs = [G.history_program(rng, 20 if q else 60, nkeys=5, ndata=4, removal_weight=0.2, bulk=True,
+                               full_opts=True, algos=tuple(G.ALGOS)) for _ in range(8 if q else 80)]
+    progs += [G.roundtrip_program(rng, 8 if q else 20) for _ in range(6 if q else 60)]
+    agg = RN.run_batches("C17", RN.chunk(progs, 2), opts={"layout": True, "exact": True}, jobs=jobs)
+    # reference writes / library reads
+    rprogs = [G.refwrite_program(rng, 10 if q else 30) for _ in range(12 if q else 120)]
+    agg2 = RN.run_batches("C17r", RN.chunk(rprogs, 2), opts={"exact": True}, jobs=jobs)
+    for k in ("traces", "events", "calls", "states", "transitions", "programs"):
+        agg[k] += agg2[k]
+    agg["cases"] |= agg2["cases"]
+    agg["divs"] += agg2["divs"]
+    return {"mc": [], "agg": agg, "samples": [rprogs[0]["steps"][:6]],
+            "rule": "library writes / reference reads: after every call the bytes a bucket grew by and every new "
+                    "content path are handed to TLC (TraceLayout.tla) with hashlib's digests and must satisfy "
+                    "IsRecordLine / BucketPath / ContentPath of Layout.tla, the reference reader's projection must "
+                    "equal the ghost state line by line (exact mode), nothing else may appear under the root; "
+                    "reference writes / library reads: caches produced by the independent writer (all SHA "
+                    "algorithms, hostile keys, tombstones, multi-record buckets) are looked up, read and listed "
+                    "through all lanes and must equal the specification's verdict",
+            "coverage_extra": {"layout_events_validated": agg.get("layout_events", 0)},
+            "assumptions": ["the reference implementation is ours (transcribed from the specification), not npm cacache"],
+            "needs_mc_from": "C10"}
+
+
+def check_C20(tier, rng, jobs):
+    q = tier == QUICK
+    one = ALL_LANES
+    progs = []
+    for _ in range(2 if q else 20):
+        progs.append(G.history_program(rng, 20 if q else 60, nkeys=4, ndata=3, bulk=True, full_opts=True))
+        progs.append(G.roundtrip_program(rng, 8 if q else 25))
+        progs.append(G.commit_program(rng, 10 if q else 30))
+        progs.append(G.abandon_program(rng, 8 if q else 25))
+        progs.append(G.retrieve_program(rng, 6 if q else 20))
+        progs.append(G.link_program(rng, 4 if q else 12))
+        progs.append(G.commit_program(rng, 2 if q else 5, big=True))
+    progs.append(G.index_damage_program(rng, nrec=2, flips=60, cuts=80))
+    agg = RN.run_batches("C20", RN.chunk(progs, 2), jobs=jobs)
+    hprogs = [G.hostile_state_program(rng) for _ in range(14 if q else 120)]
+    agg2 = RN.run_batches("C20h", RN.chunk(hprogs, 1), opts={"total": True}, jobs=jobs)
+    for k in ("traces", "events", "calls", "states", "transitions", "programs"):
+        agg[k] += agg2[k]
+    agg["cases"] |= agg2["cases"]
+    agg["divs"] += agg2["divs"]
+    agg["anomalies"] += agg2["anomalies"]
+    return {"mc": [], "agg": agg, "samples": [hprogs[0]["steps"][:6]],
+            "rule": "every call of a cross-section of all other checks' programs (declared sizes delivered in several "
+                    "chunks or with more/fewer bytes, zero-length data, damaged content and buckets, rejected commits, "
+                    "abandoned writers) plus programs on directory states outside the model (bucket path is a "
+                    "directory, content path is a directory, tmp / index-v5 / content-v2 is a file, root removed) runs "
+                    "under catch_unwind and a 30 s watchdog; the trace specification has no action producing a "
+                    "panic, hang or dead process, so any such outcome is rejected by TLC",
+            "coverage_extra": {"anomalies_seen": len(agg["anomalies"])},
+            "needs_mc_from": "C02"}
+
+
+CHECKS = {"C12": check_C12, "C17": check_C17, "C20": check_C20, "C19": check_C19, "C06": check_C06, "C01": check_C01, "C16": check_C16, "C18": check_C18, "C02": check_C02, "C05": check_C05, "C08": check_C08, "C09": check_C09, "C10": check_C10,
           "C11": check_C11, "C14": check_C14}
 
 
